@@ -103,7 +103,8 @@ def gen_case(seed):
             cur = opts.get(k)
             if cur is None:
                 continue
-            rem[k] = r2.choice([x for x in pool if x <= cur])
+            cands = [x for x in pool if x <= cur]
+            rem[k] = r2.choice(cands[-3:] + [cands[-1]])  # mostly close to the new limit, so that 0-RTT data flows at all
         opts["resume"] = rem
         for o in script:
             if o["side"] == "client" and r2.random() < 0.6:
